@@ -36,7 +36,8 @@ def rand_cfg(rng, parallel=True):
     return dict(nworkers=rng.choice([1, 1, 2, 2, 3, 4]) if parallel else 0,
                 extracache=rng.choice([0, 0, 1, 2, 3]),
                 skipNone=rng.random() < 0.7,
-                maxtasksperchild=rng.choice([None, None, 1, 2]))
+                maxtasksperchild=rng.choice([None, None, 1, 2]),
+                verbose=rng.random() < 0.2)    # the debugging switch must not change anything but the printing
 
 
 def gen_cases(ctx):
@@ -80,6 +81,8 @@ def gen_cases(ctx):
                                   schedule=dict(priority=list(prio), quiet_ms=15), label='enumerated'))
     for c in cases:
         c['demand'] = ['N*']
+        if c['label'] != 'corpus' and rng.random() < 0.3:
+            c['hint'] = rng.choice(pipelib.HINTS)      # the source also has a __length_hint__, right or wrong
     return cases
 
 
@@ -165,10 +168,31 @@ def make_stage(tab):
     return stage
 
 
-def chain_cases(ctx):
-    """k stages chained; stage functions are tables int -> int | None; compared with the composed spec of the model"""
+def _run_chain(tables, cfgs, n, style):
+    """runs in a forked child of its own process group (pipelib.isolated)"""
     global CHAIN
     from generatorpipeline import pipeline
+    CHAIN = tables
+    stream = iter(range(n))
+    lams = [(lambda x, t=t: None if t[x] == 'n' else t[x]) for t in tables]
+    for s in range(len(tables)):
+        if style == 'module+kwargs':
+            P = pipeline(cfgs[s]['nworkers'], extracache=cfgs[s]['extracache'], maxtasksperchild=cfgs[s].get('maxtasksperchild'))(chain_f)
+            stream = P(stream, stage=s)
+        else:
+            fn = make_stage(tables[s]) if style == 'closures-of-one-factory' else lams[s]
+            P = pipeline(cfgs[s]['nworkers'], extracache=cfgs[s]['extracache'], maxtasksperchild=cfgs[s].get('maxtasksperchild'))(fn)
+            stream = P(stream)
+    try:
+        return list(stream)
+    except Exception as e:  # noqa
+        return 'raised %r' % (e,)
+
+
+def chain_cases(ctx):
+    """k stages chained; stage functions are tables int -> int | None; compared with the composed spec of the model.
+    Each chain runs in its own forked process group with a time limit: a variant of the library that hangs or leaks
+    processes there cannot block the check."""
     rng = ctx.rng
     lines, metas = [], []
     for _ in range(ctx.scale(60, 400)):
@@ -177,30 +201,27 @@ def chain_cases(ctx):
         tables, cfgs = [], []
         for s in range(k):
             tables.append({x: ('n' if rng.random() < 0.25 else rng.randrange(n + 3)) for x in range(n + 3)})
-            cfgs.append(dict(nworkers=rng.choice([0, 1, 2, 3]), extracache=rng.choice([0, 1, 2]), skipNone=True))
-        CHAIN = tables
-        stream = iter(range(n))
+            cfgs.append(dict(nworkers=rng.choice([0, 1, 2, 3]), extracache=rng.choice([0, 1, 2]), skipNone=True,
+                             maxtasksperchild=rng.choice([None, None, 1, 2])))       # recycled workers are forked LATER than the pool
         style = rng.choice(['module+kwargs', 'closures-of-one-factory', 'lambdas-of-one-scope'])
-        lams = [(lambda x, t=t: None if t[x] == 'n' else t[x]) for t in tables]
-        for s in range(k):
-            if style == 'module+kwargs':
-                P = pipeline(cfgs[s]['nworkers'], extracache=cfgs[s]['extracache'])(chain_f)
-                stream = P(stream, stage=s)
-            else:
-                fn = make_stage(tables[s]) if style == 'closures-of-one-factory' else lams[s]
-                P = pipeline(cfgs[s]['nworkers'], extracache=cfgs[s]['extracache'])(fn)
-                stream = P(stream)
         ctx.count('chain_style:' + style)
-        try:
-            got = list(stream)
-        except Exception as e:  # noqa
-            got = 'raised %r' % (e,)
-        exp = list(range(n))
-        for s in range(k):
-            exp = [tables[s][x] for x in exp if tables[s][x] != 'n']
         case = dict(chain=[{str(a): b for a, b in t.items()} for t in tables], cfgs=cfgs, n=n, style=style)
         ctx.case(('chain', case), n > 0)
         ctx.count('label:chain')
+        got = None
+        for attempt in range(3):    # see execute(): CPython's rare Pool.terminate() race; only a repeatable time-out counts
+            st, got = pipelib.isolated(_run_chain, (tables, cfgs, n, style), timeout=15)
+            if st != 'timeout':
+                break
+            ctx.count('chain_rerun_after_a_timeout')
+        if st == 'error':
+            raise core.InfraError('chain runner failed: ' + str(got))
+        exp = list(range(n))
+        for s in range(k):
+            exp = [tables[s][x] for x in exp if tables[s][x] != 'n']
+        if st == 'timeout':
+            ctx.fail('chain-deadlock', 'chained stages did not finish within 15 s (three attempts); composition gives %s' % (exp,), case)
+            continue
         if got != exp:
             ctx.fail('chain-output-differs-from-composition', 'chained stages delivered %s, composition gives %s' % (got, exp), case)
         # model: compose the spec stage by stage
@@ -216,6 +237,67 @@ def chain_cases(ctx):
             cur = [int(t[1:]) for t in toks[:-1]]
         if not ok or cur != (got if isinstance(got, list) else None):
             ctx.disagree('chain-equals-composed-model-spec', case, got, cur)
+
+
+def _g_keep(y):
+    return None if y % 3 == 0 else y * 10
+
+
+def _run_variant(kind, nworkers, extracache, skipNone, n, how):
+    """runs in a forked child of its own process group: a stage that is not used the plain way"""
+    import copy
+    import dill
+    from generatorpipeline import pipeline
+    if kind == 'nested':
+        # the wrapped function itself streams each row through an inner stage that keeps None
+        inner = pipeline(0, skipNone=skipNone)(_g_keep)
+        outer = pipeline(nworkers, extracache=extracache)(lambda x: list(inner(iter([x, x + 1, x + 2]))))
+        return list(outer(iter(range(n))))
+    # a copy of a configured stage is a stage with that configuration
+    base = pipeline(nworkers, extracache=extracache, skipNone=skipNone)(_g_keep)
+    if how == 'copy':
+        P = copy.copy(base)
+    elif how == 'deepcopy':
+        P = copy.deepcopy(base)
+    elif how == 'dill':
+        P = dill.loads(dill.dumps(base))          # what a worker receives (runs in-process by design)
+    else:
+        import pickle
+        P = pickle.loads(pickle.dumps(base))
+    first = list(base(iter(range(n)))) if how in ('copy', 'deepcopy') else None     # the original is used as well
+    return dict(copy=list(P(iter(range(n)))), original=first)
+
+
+def variant_cases(ctx):
+    rng = ctx.rng
+    for _ in range(ctx.scale(24, 120)):
+        kind = rng.choice(['nested', 'copied'])
+        nw, ec, skip, n = rng.choice([0, 1, 2, 3]), rng.choice([0, 1, 2]), rng.random() < 0.5, rng.choice([0, 1, 4, 7])
+        how = rng.choice(['copy', 'deepcopy', 'dill', 'pickle'])
+        case = dict(variant=kind, nworkers=nw, extracache=ec, skipNone=skip, n=n, how=how if kind == 'copied' else None)
+        ctx.case(('variant', kind, nw, ec, skip, n, case['how']), n >= 4 and not skip, sample=case)
+        ctx.count('variant:' + kind)
+        for attempt in range(3):
+            st, got = pipelib.isolated(_run_variant, (kind, nw, ec, skip, n, how), timeout=30)
+            if st != 'timeout':
+                break
+        if st == 'timeout':
+            ctx.fail('chain-deadlock', 'a %s stage did not finish within 30 s (three attempts)' % kind, case)
+            continue
+        if st == 'error':
+            ctx.fail('variant-stage-raises', 'a %s stage raised: %s' % (kind, str(got)[-300:]), case)
+            continue
+        keep = lambda ys: [v for v in ys if not (v is None and skip)]     # noqa
+        if kind == 'nested':
+            exp = [keep([_g_keep(y) for y in (x, x + 1, x + 2)]) for x in range(n)]
+            if got != exp:
+                ctx.fail('nested-stage-output-wrong', 'rows streamed through an inner stage (skipNone=%s) inside the workers: %s, expected %s' % (
+                    skip, got, exp), case)
+        else:
+            exp = keep([_g_keep(y) for y in range(n)])
+            if got['copy'] != exp or (got['original'] is not None and got['original'] != exp):
+                ctx.fail('copied-stage-output-wrong', 'a %s of a stage with skipNone=%s delivered %s (the original %s), expected %s' % (
+                    how, skip, got['copy'], got['original'], exp), case)
 
 
 def serial_demands(case, res):
@@ -252,12 +334,12 @@ def execute(cases, workers=16):
         if any('controller process ended abnormally' in x for x in r.get('notes', [])):
             raise core.InfraError('scenario controller failed: %s' % r['notes'])
         if c['cfg']['nworkers'] > 0:
-            lines.append(pipelib.trace_line(c, r['events'], c.get('pre_model', (0, 0))))
+            lines.append(pipelib.trace_line(c, r['events'], c.get('pre_model') or (0, 0)))
             spans.append(1)
         else:
             dem = serial_demands(c, r)
             if dem:
-                pre = c.get('pre_model', (0, 0))
+                pre = c.get('pre_model') or (0, 0)
                 tail = '-' if c.get('tail') is None else 'e%d' % c['tail']
                 lines.append('pipe.serial %d %d %d | %s | %s | %s' % (
                     1 if c['cfg']['skipNone'] else 0, pre[0], pre[1], tail,
@@ -276,14 +358,22 @@ def check(ctx):
         with ctx.guard(c):
             judge(ctx, c, r, m)
     chain_cases(ctx)
+    variant_cases(ctx)
     from harness.props import multistream
     multistream.run(ctx, ctx.scale(40, 400), {'outputs'}, 'multi-C01')
 
 
 def replay(ctx, data):
     case = data['case']
+    if 'streams' in case:
+        from harness.props import multistream
+        multistream.replay(ctx, case)
+        return
     if 'chain' in case:
         chain_cases(ctx)
+        return
+    if 'variant' in case:
+        variant_cases(ctx)
         return
     for c, r, m in execute([case], workers=1):
         with ctx.guard(c):
